@@ -75,4 +75,8 @@ BadListsRejected == (given = "list" /\ pc \notin {"check", "failed"}) => (nGiven
 \* not an invariant, a documented consequence (checked to be REACHABLE by BrewModes_reach.cfg): with override the zero scores
 \* of untrained fold models are handed back
 ZerosWithOverrideUnreachable == ~(pc = "done" /\ path = "zeros" /\ override /\ final = "scores")
+\* ---- liveness (checked by BrewModes_live.cfg): under weak fairness of the next-state action every behaviour comes to rest
+\* in a state without successor -- the modelled procedure terminates for every input, schedule and fault inside the bounds
+FairSpec == Spec /\ WF_vars(Next)
+Halts == <>[](~ENABLED Next)
 =============================================================================
